@@ -4,9 +4,9 @@ import json
 
 # id -> (level category, technique, level text, level note, design ref)
 P = {
- "C01": ("exploration", "differential property-based testing (proptest tapes): draw() on a draw_iter-only target vs draw() on a native-fill target vs pixels() through draw_iter, also through clip windows",
+ "C01": ("exploration", "differential property-based testing (proptest tapes): draw() on a draw_iter-only target vs draw() on a native-fill target vs pixels() through draw_iter, also through clip windows; shapes to 3000 px on a row-sampling target",
          "Generated search over all drawables x styles x positions x colour types with a three-way differential oracle between the library's drawing paths on two independent reference targets; holds on every generated case, no proof of absence.",
-         "Trusted: the two reference DrawTargets of the harness (documented semantics of fill_contiguous/fill_solid/clear). Sizes <= 60, widths <= 40.", "DESIGN.md 4/C01"),
+         "Trusted: the two reference DrawTargets of the harness (documented semantics of fill_contiguous/fill_solid/clear). Pixel maps compared exactly up to 300 px, on sampled rows up to 3000 px.", "DESIGN.md 4/C01"),
  "C02": ("exploration", "property-based testing with a validity predicate (every touched point inside bounding_box(); transparent styles draw nothing), all built-in fonts enumerated",
          "Generated search over drawables/styles/positions and an enumeration of every built-in font x style matrix; containment judged on a recording target that never clips.",
          "Tightness of the box is not asserted, only containment. Font table is extracted from /repo's generated modules at build time.", "DESIGN.md 4/C02"),
@@ -15,16 +15,16 @@ P = {
          "Trusted: the model (plain set arithmetic on points) and the reference targets. Depth <= 3, areas <= 12x12.", "DESIGN.md 4/C03"),
  "C04": ("fault_enumeration", "fault injection with complete enumeration of the failing call index k for every generated drawable/adapter stack; call-log comparison with the fault-free run",
          "For every generated drawable the fault-free call log is recorded and then every k < n is re-run with the k-th target call failing: result must be exactly Err(E(k)), no later call, identical prefix.",
-         "Trusted: the logging/fault-injecting target. The set of drawables is generated, the set of fault points per drawable is complete.", "DESIGN.md 4/C04"),
- "C05": ("exploration", "exhaustive small-domain enumeration plus proptest: points() compared with the set {q : contains(q)} on bounding box + margin; iterator-protocol oracle (provided Iterator methods vs repeated next() on pre-advanced iterators)",
+         "Trusted: the logging/fault-injecting target. The set of drawables is generated, the set of fault points per drawable is complete up to 96 target calls and sampled (ends, every n/40-th, 16 derived positions) for the large drawables beyond.", "DESIGN.md 4/C04"),
+ "C05": ("exploration", "exhaustive small-domain enumeration plus proptest: points() compared with the set {q : contains(q)} on bounding box + margin; shapes of 1025..=4600 px with the whole points() stream consumed and contains() on sampled rows; iterator-protocol oracle (provided Iterator methods vs repeated next() on pre-advanced iterators)",
          "Complete enumeration of small rectangles, circles, ellipses, rounded rectangles and grid triangles plus random larger shapes and sectors; both directions (no point missing, none extra, none twice, row-major, inside the box).",
          "contains() is probed on the bounding box plus a margin of 3 pixels only. Zero-area triangles excluded by construction as the statement says.", "DESIGN.md 4/C05"),
  "C06": ("exploration", "property-based testing and complete small-shape enumerations (ellipses <= 64x64 x every inside stroke width, circles, rectangles, rounded rectangles x widths x alignments x colour presence) against a reference renderer built from fill_area()/stroke_area().contains(), plus exact geometric clause on the offset areas and the iterator-protocol oracle on pixels()",
          "Generated closed shapes with strokes often wider than the shape; expected colour of every point computed from the hit-test API and compared with draw() and pixels().",
-         "Trusted: contains() of the four shapes (pinned separately by C05/C18).", "DESIGN.md 4/C06"),
+         "Trusted: contains() of the four shapes (pinned separately by C05/C18). Shapes of 1025..=20000 px and every circle diameter up to 6000 (thorough 20000) are judged on sampled rows of a row-sampling target.", "DESIGN.md 4/C06"),
  "C07": ("exploration", "metamorphic property-based testing: draw(x.translate(d)) == shift(draw(x), d), same for points(), contains(), bounding_box(), text position",
          "Generated drawables (emphasis on thick triangles/polylines) and offsets crossing the axes; pixel maps compared exactly.",
-         "Offsets within +-60, coordinates within +-100.", "DESIGN.md 4/C07"),
+         "Pixel maps compared exactly for offsets within +-60 (+-1100 for the large joins, +-30000 for far placements); shapes of 1025..=20000 px moved by up to +-3000 on sampled rows.", "DESIGN.md 4/C07"),
  "C08": ("exploration", "robustness fuzzing: boundary-biased proptest tapes and coverage-guided libFuzzer over the display-scale domain in a build with overflow checks and debug assertions, catch_unwind + step budgets + counting global allocator",
          "Every constructor/query/draw of every drawable and adapter stack on display-scale inputs must return without panic, within a step budget, with zero allocations on the armed thread; default and fixed_point builds.",
          "No-allocation is observed per executed path only. A non-terminating loop without target calls is reported as inconclusive (watchdog), not as a violation.", "DESIGN.md 4/C08"),
@@ -41,8 +41,8 @@ P = {
          "Every raw storage value of every built-in colour type (24-bit types complete in the thorough tier) checked for round trip, masking, channel accessors, documented bit layout and byte-order functions.",
          "Quick tier strides the four 24-bit types (complete in thorough).", "DESIGN.md 4/C12"),
  "C13": ("exploration", "exhaustive enumeration of source colours for every provided conversion with an exact integer nearest-value oracle; the 141 named web colours x 8 types against the conversion",
-         "All ordered pairs of colour types with a From impl x every source value (<= 16 bit complete; 24-bit per-channel complete on a grid): nearest value, extremes, monotonicity, round trips, gray/binary rules.",
-         "RGB->Gray luma is judged against BT.601 within 1.5 levels (the statement fixes only monotonicity, extremes and gray reproduction).", "DESIGN.md 4/C13"),
+         "All ordered pairs of colour types with a From impl x every source value (<= 16 bit complete; the two 24-bit sources complete as well, in both tiers): nearest value, extremes, monotonicity, round trips, gray/binary rules.",
+         "RGB->gray: only what the statement fixes is asserted (monotonicity, extremes, reproduction of gray inputs), not the luma weights.", "DESIGN.md 4/C13"),
  "C14": ("exploration", "exhaustive font-data enumeration plus property-based testing against a reference text renderer reading the glyph atlas",
          "Every built-in font x every mapped character checked for a unique in-image cell; random strings rendered and compared with a renderer built from font.image.pixel(); custom fonts with spacing and multi-row atlases.",
          "Trusted: ImageRaw::pixel (pinned by C09). Font table extracted from /repo at build time.", "DESIGN.md 4/C14"),
@@ -57,10 +57,10 @@ P = {
          "The w/2+2.5 bound is claimed for widths <= 24 only (see DESIGN).", "DESIGN.md 4/C17"),
  "C18": ("exploration", "exhaustive enumeration of diameters/axis pairs and 1-degree angle grid plus proptest, judged by exact integer / f64 geometry of the ideal shapes; default and fixed_point builds",
          "Circles d<=128, ellipses, rounded rectangles, sectors and arcs compared with ideal curves within the stated bands, symmetry, contiguity, equivalences between descriptions, angular boundary tolerance 1.5 px.",
-         "f64 is used only for clauses with a stated tolerance.", "DESIGN.md 4/C18"),
+         "f64 is used only for clauses with a stated tolerance. Circles and ellipses of 1025..=20000 px are judged on sampled rows.", "DESIGN.md 4/C18"),
  "C19": ("exploration", "exhaustive grid enumeration plus proptest with exact orientation-test oracles for triangles and a segment-union oracle for polylines",
          "All vertex triples on a small grid and random larger ones: interior covered, nothing further than one pixel from an edge, vertex-order independence, shared-edge agreement; outline = three edge lines (either direction), polyline = concatenated segments.",
-         "Each outline edge may be rasterised in either direction.", "DESIGN.md 4/C19"),
+         "Each outline edge may be rasterised in either direction. One-pixel outlines and polylines with edges up to 28000 px (huge_outlines) are compared as sets of pixels().", "DESIGN.md 4/C19"),
  "C20": ("exploration", "model-based stateful property testing of MockDisplay against an independent map (pixels, iterators of up to 4300 pixels, fills, clear, set_pixels, draw_pixel; swap_xy / map / from_points), with catch_unwind for the documented panics; patterns of the built-in colour types and of a user-defined ColorMapping with multi-byte characters",
          "Histories of pixel/iterator draws with in/out-of-range and repeated points under the four flag combinations; panics exactly when documented, get_pixel/affected_area/Debug/from_pattern/eq/diff agree with the model.",
          "get_pixel is only called in range (it indexes unchecked by design).", "DESIGN.md 4/C20"),
